@@ -533,7 +533,22 @@ func (fc *FnCtx) execInstr(in ssa.Instruction, st *State) {
 	case *ssa.Go:
 		fc.unsup("go statement")
 	case *ssa.Select:
-		fc.unsup("select statement")
+		if in.Blocking {
+			fc.unsup("blocking select statement")
+		}
+		// non-blocking select (select with default): which case fires is not modelled; the
+		// result is an arbitrary case index (-1 = default) and arbitrary received values
+		idx := tb.Fresh("select_idx", "Int")
+		fc.assume(st, tb.And(tb.Le(tb.Int(-1), idx), tb.Lt(idx, tb.Int(int64(len(in.States))))))
+		tup := Tuple{idx, tb.Fresh("select_ok", "Bool")}
+		for _, s := range in.States {
+			if s.Dir == types.RecvOnly {
+				et := types.Unalias(s.Chan.Type()).Underlying().(*types.Chan).Elem()
+				tup = append(tup, tb.Fresh("select_recv", fc.so.Sort(et)))
+			}
+		}
+		fc.note("non-blocking select in " + fc.fnName() + ": the case taken is arbitrary (channels are not modelled)")
+		fc.regs[in] = tup
 	case *ssa.Send:
 		fc.unsup("channel send")
 	case *ssa.MakeChan:
